@@ -258,6 +258,8 @@ static Thread *choose(Thread **list, int n, Thread *me, bool me_in)
 
 void pick_next(Thread *me)
 {
+  if (g.tso)
+    tso_background();
   // build the enabled list: me first (if enabled), then ascending id
   static Thread *list_store[MAX_THREADS];
   Thread **list = list_store;
@@ -324,8 +326,30 @@ void pick_next(Thread *me)
     park(me);
 }
 
+static inline bool serialising(OpKind k)
+{
+  switch (k) {
+  case OP_READ:
+  case OP_WRITE:
+  case OP_VREAD:
+  case OP_VWRITE:
+  case OP_ALOAD:
+  case OP_ASTORE:
+  case OP_USER:
+  case OP_START:
+    return false;
+  default:
+    return true;  // locked operations, fences, system calls
+  }
+}
+
 void sched_point(Thread *me, OpKind k, uintptr_t addr)
 {
+  if (g.tso) {
+    tso_capture(me);
+    if (serialising(k))
+      tso_flush_all(me);
+  }
   g.steps++;
   me->nsteps++;
   if (g.steps >= g.step_cap)
@@ -339,6 +363,8 @@ void sched_point(Thread *me, OpKind k, uintptr_t addr)
 void thread_finish(Thread *t)
 {
   // still holding the baton
+  if (g.tso)
+    tso_flush_all(t);
   g.steps++;
   hash_mix(g.ilv_hash, ((uint64_t)t->id << 8) | OP_EXIT);
   t->state = Thread::FINISHED;
@@ -405,6 +431,9 @@ void sim_reset_run_state()
   g.spurious = 0;
   g.clock_jumps = 0;
   g.step_cap = 200000;
+  g.tso = false;
+  g.tso_stores = g.tso_delays = 0;
+  tso_reset();
   sync_reset();
   hb_reset();
 }
@@ -573,6 +602,10 @@ void sim_work(uint32_t k)
 void sim_set_fair(int on)
 {
   g.fair = on != 0;
+  if (on && g.tso)
+    for (int i = 0; i < g.nthreads; i++)
+      if (g.threads[i]->state != Thread::FINISHED)
+        tso_flush_all(g.threads[i]);
   if (on)  // a wake-up permission granted earlier must not mask a lost notification
     for (int i = 0; i < g.nthreads; i++)
       if (g.threads[i]->op == OP_COND_BLOCK)
@@ -584,6 +617,7 @@ void sim_set_cores(int n) { g.cores = n; }
 void sim_set_spurious(int on) { g.spurious = on; }
 void sim_set_clock_jumps(int on) { g.clock_jumps = on; }
 void sim_set_step_cap(uint64_t cap) { g.step_cap = cap; }
+void sim_set_tso(int on) { g.tso = on != 0; }
 
 void sim_tag_push(int tag)
 {
